@@ -1375,6 +1375,28 @@ def judge_one(ctx, jby, steps, i, c, b, mp, role, orc, exact, myruns, outs):
 
 
 # --------------------------------------------------------------------------------------------
+def fixed_rare_cases():
+    """Deterministic members of every run: one nearly closed state A (self-loop, reward 1 resp. 2) that leaves with
+    probability 5e-4 / 2e-4 into a recurrent state paying 3 resp. into an absorbing state.  The unchanged code passes
+    them (its rank test fails only below ~7e-5 here); a cruder rank test reports a wrong gain."""
+    out = []
+    for eps in (5e-4, 2e-4):
+        for to_abs in (False, True):
+            for K in (1, 2):
+                rA = 1 if K == 1 else 2
+                P = [[[3, 1] for _ in range(K)], [[0, 4] for _ in range(K)]]
+                if K == 2:
+                    P[0][1] = [4, 0]                       # second action: stay for ever (gain 2 vs the exit's)
+                R = [[[rA, rA] for _ in range(K)], [[0, 0] if to_abs else [3, 3] for _ in range(K)]]
+                m = {"N": 2, "K": K, "PD": 4, "GN": 1, "GD": 1, "ID": 2, "abs": [0, 1 if to_abs else 0],
+                     "avail": [[1] * K, [1] * K], "P": P, "R": R, "p0": [2, 0], "CAP": BIG_CAP,
+                     "rare": [0, 0, 0, 1], "eps": eps}
+                rep = dict(REPS[0 if K == 1 else 1])
+                rep["explicit_list"] = True
+                out.append({"m": m, "rep": rep, "n_inits": 1, "all_rules": False, "rare": True})
+    return [c for c in out if rare_insensitive(c["m"])]
+
+
 def run(ctx):
     rng = random.Random(ctx.seed * 7919 + 16)
     n = 560 if ctx.tier == "quick" else 4000
@@ -1404,7 +1426,7 @@ def run(ctx):
         "and the spec's exact stop gaps of the rule it rests on are all within np.isclose's default window 1e-8 + 1e-5|max|",
         "runs that do not report convergence are counted, not judged (the statement is conditional on reported convergence)",
     ]
-    cases = make_cases(rng, n, ctx.tier)
+    cases = fixed_rare_cases() + make_cases(rng, n, ctx.tier)
     chunk = 560 if ctx.tier == "quick" else 400
     for k in range(0, len(cases), chunk):
         judge_cases(ctx, cases[k:k + chunk])
